@@ -100,7 +100,7 @@ def make (spec0):
         cnt = [(100, 1, 1), (1, 100, 1), (1, 1, 100), (10, 10, 1), (10, 5, 2), (4, 5, 5), (25, 4, 1), (5, 5, 8), (2, 50, 1), (50, 2, 2)] [int (rng.integers (0, 10))]
         ax  = [(a [0], a [1] if a [1] != 0 else 0.1, n) for a, n in zip (ax, cnt)]
     rs = np.random.default_rng ([spec0 ['seed'], 163, spec0 ['i']])
-    if kind == 'near' and rs.random () < 0.2:
+    if kind == 'near' and rs.random () < 0.35:
         # small tables: every way of placing one to six points along the axes (three points on one axis, two by three ...)
         small = [(a, b, c_) for a in range (1, 7) for b in range (1, 7) for c_ in range (1, 7) if a * b * c_ <= 6]
         cnt = small [int (rs.integers (0, len (small)))]
@@ -166,6 +166,17 @@ def check (spec0):
                 if not np.array_equal (first, np.array (m.near_field_coord)):
                     viol.append (dict (monitor = 'near.repeat', key = 'near-points-repeat', msg = 'the same near-field request twice in a row: the second table has other points than the first'))
                 if spec ['kind'] == 'near':
+                    # the points the fields are evaluated at, in the order of the tables (X runs fastest)
+                    gx = [instrument.exact_grid (*a) for a in ax]
+                    want_p = [(x, y, z) for z in gx [2] for y in gx [1] for x in gx [0]]
+                    got_p  = [tuple (float (v) for v in p) for p in m.near_field_iter ()]
+                    mon ['near.iter'] = 1
+                    scl = max ([abs (v) for p in want_p for v in p] + [1e-300])
+                    if len (got_p) != len (want_p) or any (abs (a - b) > 1e-12 * scl for p, q in zip (got_p, want_p) for a, b in zip (p, q)):
+                        bad_i = next ((i for i, (p, q) in enumerate (zip (got_p, want_p)) if any (abs (a - b) > 1e-12 * scl for a, b in zip (p, q))), None)
+                        viol.append (dict (monitor = 'near.iter', key = 'near-points-evaluated'
+                                          , msg = 'the fields of a %d x %d x %d request are evaluated at %d points; point %s is %r, requested %r'
+                                                  % (nvec [0], nvec [1], nvec [2], len (got_p), bad_i, None if bad_i is None else got_p [bad_i], None if bad_i is None else want_p [bad_i])))
                     mon ['near.values'] = 1
                     N = nvec [0] * nvec [1] * nvec [2]
                     if len (m.e_field) != N or len (m.h_field) != N:
